@@ -7,7 +7,7 @@ out="$wt/OUT/$id"
 log=/tmp/seed/eval-$(basename $wt)-$id.log
 {
 echo "##### confirm $id ($crate)"
-/verif/tools/confirm_seed.sh "$wt" "$out" "$crate" $CONFIRM_ARGS
+[ -n "$SKIP_CONFIRM" ] || /verif/tools/confirm_seed.sh "$wt" "$out" "$crate" $CONFIRM_ARGS
 echo "##### detect $id with $bin $*"
 cd /tmp/rvscratch/seedval/repo && git checkout -q -- . && git apply "$out/patch.diff" && git diff --stat | tail -1
 # refresh the scratch harness from /verif/harness (sources may have been strengthened since the scratch copy was made)
